@@ -81,7 +81,8 @@ SPEC = {
     "props_module": PROPS_MODULE,
     "required": ["export_structure", "export_ok_iff", "export_first_failure", "export_refuses", "export_ok_only_expressible",
                  "templates_as_modelled", "structural_literals_as_modelled", "constant_gates_exact", "cv_cvdg_not_in_qelib1",
-                 "parametrised_one_qubit_gates", "parametrised_controlled_gates", "export_wellformed_partial", "good_templates", "export_equiv_partial", "export_equiv_program_partial", "equivSound_sound", "leaves_ok", "okParam_eq_good",
+                 "parametrised_one_qubit_gates", "parametrised_controlled_gates", "export_wellformed_partial", "good_templates", "export_equiv_partial", "export_equiv_program_partial", "export_equiv_text_partial", "parses_as_printed_samples",
+                 "lexer_reads_decimal_literals", "equivSound_sound", "leaves_ok", "okParam_eq_good",
                  "semantics_is_fold", "neg_basis_measurement", "neg_condition_first_statement_only",
                  "neg_empty_control_list", "neg_condition_target_overflow", "neg_empty_statement",
                  "neg_reference_parameter", "neg_not_qelib1", "neg_export_panics", "pos_conditional_agrees", "pos_bell_agrees",
@@ -116,10 +117,12 @@ def run(ctx):
         "the reference semantics is my reading of OpenQASM 2.0 and of qelib1.inc (the 23 gates of the file published with the "
         "specification, arXiv:1707.03429), written from memory in lean/Q1t/Spec/OQ2.lean, each gate by its body over U and CX; "
         "cu3 is read with the corrected body (leading `u1((lambda+phi)/2) c;`, i.e. the exact controlled u3), see the Spec header",
-        "export_equiv_program_partial states the equivalence about the Spec/OQ2 PROGRAM with its decimal literals (toProgramV), under the named "
-        "assumption NumRoundTrip (every displayed number is printed by Rust's Display for f64 as an optional '-' and a decimal literal that "
-        "reads back as that value). What remains only CHECKED on every generated case by (A) and (B), not proved: that the implementation's "
-        "TEXT lexes and parses (Spec.OQ2.lex / parse) to that program - no printer/lexer/parser round-trip theorem",
+        "export_equiv_text_partial states the equivalence about the TEXT under three NAMED assumptions (lean/Q1t/Spec/OQ2Text.lean): "
+        "NumRoundTrip (a displayed number is printed as an optional '-' and a decimal literal that reads back as that value), LexesAsPrinted "
+        "(the text lexes to the token sequence specToks of the model's lines: what (A) compares on every case; the decimal-literal half is "
+        "proved, lexer_reads_decimal_literals) and ParsesAsPrinted (the reference parser reads those tokens as the program toProgramV: "
+        "kernel-checked on one instance of every statement/argument shape of the generated table, parses_as_printed_samples; checked by (B) "
+        "on every case). No general printer/lexer/parser round-trip theorem",
         "export_equiv_partial is proved (any lawful amplitude type; complex/real model given; zero-weight branches kept on both sides; branch "
         "lists related up to a permutation) for circuits with >= 1 qubit and <= 64 classical bits whose operations are: unconditional sound "
         "gates (Kron/Composite/Loop over every library gate with a good template), conditional sound gates on a permutation of the whole "
